@@ -96,6 +96,7 @@ static void pair_phase(long shard, void *arg) {
 #if SINK == 16
 /* ------------------------------------------------------------------ C16 */
 static int C_ACCEPTED, C_INVALID, C_EXTRA;
+static eav_t OBJ16[4][2];
 static void sink(const unsigned char *s, size_t n, void *arg) {
     (void)arg; static char buf[70100]; if (n + 8 > sizeof buf) return;
     for (size_t i = 0; i < n; i++) if (!s[i]) return;
@@ -111,8 +112,17 @@ static void sink(const unsigned char *s, size_t n, void *arg) {
             if (D[0] == '[' || m != 3) dv = ref_domainpart(D, dn, REF_OPTS, &fam);
             else { dv = n > 3900 ? R_ANY : ref_expect_6531(D, dn, ref_domain(D, dn, REF_OPTS), REF_OPTS); if (dv == R_ACC) fam = RF_HOST; }
         }
-        for (int t = 0; t < 2; t++) {
-            eav_result_t *r = EMAIL[m](buf, n, t); MC_ADD(C_EVAL, 1);
+        for (int t = 0; t < 2; t++) for (int via = 0; via < 2; via++) {
+            /* via 0: the callback's own record; via 1: eav_t.result of a long-lived object after eav_is_email (what a caller of the
+             * object API sees - the record must belong to THIS call, whatever was validated before) */
+            eav_result_t *r;
+            if (via == 0) r = EMAIL[m](buf, n, t);
+            else { eav_t *e = &OBJ16[m][t]; int ret = eav_is_email(e, buf, n); r = e->result;
+                   if (!r) { viol("object:no-result-record", m, t, s, n, "eav_is_email returned %d and left eav_t.result NULL", ret); continue; }
+                   if ((ret == 1) != (r->rc == 0 || (r->rc > 0 && (e->allow_tld & (1 << (r->rc + 1))))))
+                       viol("object:return-value-contradicts-result-record", m, t, s, n, "eav_is_email returned %d (errcode %d) but eav_t.result says rc=%d", ret, e->errcode, r->rc);
+                   if (ret == 0 && r->rc < 0 && e->errcode != -r->rc) viol("object:errcode-contradicts-result-record", m, t, s, n, "errcode %d but eav_t.result->rc=%d (stale record?)", e->errcode, r->rc); }
+            MC_ADD(C_EVAL, 1);
             int rc = r->rc, nf = r->is_ipv4 + r->is_ipv6 + r->is_domain;
             if (nf > 1) viol("more-than-one-flag", m, t, s, n, "flags v4=%d v6=%d dom=%d", r->is_ipv4, r->is_ipv6, r->is_domain);
             if (rc >= 0) {
@@ -146,12 +156,14 @@ static void sink(const unsigned char *s, size_t n, void *arg) {
             } else if ((lv == R_REJ || dv == R_REJ) && (r->lpart || r->domain))
                 viol("extra:non-null-on-syntactically-invalid", m, t, s, n, "rc=%d lpart=%s domain=%s", rc, r->lpart ? r->lpart : "NULL", r->domain ? r->domain : "NULL");
 #endif
-            eav_result_free(r);
+            if (via == 0) eav_result_free(r);
         }
     }
     if (at > 0 && dn) MC_ADD(C_NONTRIV, 1);
 }
-static void sink_counters(void) { C_ACCEPTED = mc_counter("accepted_results_checked"); C_INVALID = mc_counter("syntactically_invalid_results_checked"); C_EXTRA = mc_counter("eav_extra_records_checked"); }
+static void sink_counters(void) {
+    for (int m = 0; m < 4; m++) for (int t = 0; t < 2; t++) { eav_t *e = &OBJ16[m][t]; memset(e, 0, sizeof *e); eav_init(e); e->rfc = RFC[m]; e->tld_check = t; if (eav_setup(e)) exit(2); }
+    C_ACCEPTED = mc_counter("accepted_results_checked"); C_INVALID = mc_counter("syntactically_invalid_results_checked"); C_EXTRA = mc_counter("eav_extra_records_checked"); }
 #define PROPNAME "C16"
 #endif
 
